@@ -294,6 +294,12 @@ func (g *fileGen) embedHeavy(used map[string]bool) {
 			}
 		}
 		n := rapid.IntRange(2, 3).Draw(t, "eh_n")
+		hostHasActive := g.flat[host.Name].attrs["active"] || g.flat[host.Name].goNames["Active"] || embeddedSomewhere[host.Name]
+		for _, hf := range host.Fields {
+			if hf.Embed || Snake(hf.Name) == "active" {
+				hostHasActive = true // keep it simple: hosts with embedded fields of their own get no empty one
+			}
+		}
 		for i := 0; i < n; i++ {
 			name := fmt.Sprintf("Emb%s%c", tag, 'A'+i)
 			if used[name] || host.Name == name {
@@ -313,17 +319,24 @@ func (g *fileGen) embedHeavy(used map[string]bool) {
 				fl.Number = int32(len(e.Fields) + 1)
 				e.Fields = append(e.Fields, fl)
 			}
-			add(&ir.Field{Name: nm("Str"), Kind: "string"})
-			if rapid.Bool().Draw(t, "eh_int") {
+			// now and then one embedded message of the block has no fields at all: its placeholder attribute `active`
+			// is flattened into the host (at most one per host, and only if the name is free there)
+			emptyEmb := !hostHasActive && rapid.IntRange(0, 5).Draw(t, "eh_empty") == 0
+			if emptyEmb {
+				hostHasActive = true
+			} else {
+				add(&ir.Field{Name: nm("Str"), Kind: "string"})
+			}
+			if !emptyEmb && rapid.Bool().Draw(t, "eh_int") {
 				add(&ir.Field{Name: nm("Num"), Kind: rapid.SampledFrom([]string{"int64", "uint32", "double", "bool"}).Draw(t, "eh_kind")})
 			}
-			if rapid.IntRange(0, 2).Draw(t, "eh_list") != 0 {
+			if !emptyEmb && rapid.IntRange(0, 2).Draw(t, "eh_list") != 0 {
 				add(&ir.Field{Name: nm("List"), Kind: "string", Card: ir.Repeated})
 			}
-			if rapid.IntRange(0, 2).Draw(t, "eh_map") != 0 {
+			if !emptyEmb && rapid.IntRange(0, 2).Draw(t, "eh_map") != 0 {
 				add(&ir.Field{Name: nm("Map"), Kind: rapid.SampledFrom([]string{"string", "int32", "bytes"}).Draw(t, "eh_mapkind"), Card: ir.Map})
 			}
-			if len(leaves) > 0 && rapid.Bool().Draw(t, "eh_msg") {
+			if !emptyEmb && len(leaves) > 0 && rapid.Bool().Draw(t, "eh_msg") {
 				ref := rapid.SampledFrom(leaves).Draw(t, "eh_ref")
 				if ref != host.Name && ref != name {
 					fl := &ir.Field{Name: nm("Msg"), Kind: ir.KMessage, Type: ref}
@@ -343,7 +356,7 @@ func (g *fileGen) embedHeavy(used map[string]bool) {
 			switch nsel {
 			case 0:
 				ef.Nullable = boolp(false)
-				if g.o.AllowOneofInEmbedded && (g.o.OneofHeavy || rapid.Bool().Draw(t, "eh_oneof")) {
+				if !emptyEmb && g.o.AllowOneofInEmbedded && (g.o.OneofHeavy || rapid.Bool().Draw(t, "eh_oneof")) {
 					// a oneof of its own (only in a by-value embedded message: a nullable one with a oneof is outside D):
 					// two embedded messages that each bring a oneof are flattened into one host
 					on := "Choice" + px
@@ -360,7 +373,14 @@ func (g *fileGen) embedHeavy(used map[string]bool) {
 		}
 		// now and then the host itself is embedded by value into a new message: its nullable embedded parents
 		// are then one embedding level further down
-		if wn := "Wrap" + tag; !used[wn] && rapid.IntRange(0, 2).Draw(t, "eh_wrap") == 0 {
+		// (the embedded Go field is named after the type: a host with a field of its own name cannot be embedded)
+		selfNamed := g.flat[host.Name].goNames[GoName(host.Name)] || g.flat[host.Name].goNames[host.Name]
+		for _, hf := range host.Fields {
+			if GoName(hf.Name) == GoName(host.Name) {
+				selfNamed = true
+			}
+		}
+		if wn := "Wrap" + tag; !selfNamed && !used[wn] && rapid.IntRange(0, 2).Draw(t, "eh_wrap") == 0 {
 			used[wn] = true
 			w := &ir.Message{Name: wn}
 			w.Fields = append(w.Fields, &ir.Field{Name: "Wr" + tag + "Str", Number: 1, Kind: "string"})
